@@ -37,7 +37,9 @@ Section Iter.
     | S fuel' =>
       let pqr := V (t + vx radii2) (t + vy radii2) (t + vz radii2) in
       let s := ell_s pqr r2p2 in
-      if abs s <? eps then (pqr, k)
+      let pqr2 := vmul pqr pqr in
+      (* scale-free stop (/repo fix of FD6): abs(s) < epsilon * pqr2[0] * pqr2[1] * pqr2[2] *)
+      if abs s <? eps * vx pqr2 * vy pqr2 * vz pqr2 then (pqr, k)
       else ell_newton fuel' eps radii2 r2p2 (t - s / ell_ds pqr r2p2) pqr (S k)
     end.
   Definition point_to_ellipsoid (p : V3 F) (T : Pose F) (radii : V3 F) (eps : F) : F * V3 F * nat :=
